@@ -77,32 +77,37 @@ def parseOption (args : List String) : Parsed :=
         let name := asciiLower (joinSp toks)
         if name.isEmpty then .rejected "No name provided to setoption!" else .ok (.setoption name value)
 
+/-- the position kind of `parse_position` -/
+def positionKind (args : List String) (a0 : String) : Except Parsed PositionKind :=
+  if a0 = "startpos" then .ok .startpos
+  else if a0 = "fen" then
+    if args.length < 7 then .error (.rejected "No FEN specified!")
+    else match slice? args 1 7 with
+      | some f => .ok (.fen (joinSp f))
+      | none => .error (.panic "args[1..7]")
+  else .error (.rejected ("Unrecognized position command: " ++ a0))
+
+/-- the optional move list of `parse_position` -/
+def positionMoves (args : List String) (kind : PositionKind) : Except Parsed (Option (List String)) :=
+  match kind with
+  | .startpos =>
+    if args.length > 2 ∧ args[1]? = some "moves" then
+      match sliceFrom? args 2 with | some m => .ok (some m) | none => .error (.panic "args[2..]")
+    else .ok none
+  | .fen _ =>
+    if args.length > 8 ∧ args[7]? = some "moves" then
+      match sliceFrom? args 8 with | some m => .ok (some m) | none => .error (.panic "args[8..]")
+    else .ok none
+
 /-- `parse_position` -/
 def parsePosition (args : List String) : Parsed :=
   match args with
   | [] => .rejected "No position specified!"
   | a0 :: _ =>
-    let kind : Except Parsed PositionKind :=
-      if a0 = "startpos" then .ok .startpos
-      else if a0 = "fen" then
-        if args.length < 7 then .error (.rejected "No FEN specified!")
-        else match slice? args 1 7 with
-          | some f => .ok (.fen (joinSp f))
-          | none => .error (.panic "args[1..7]")
-      else .error (.rejected ("Unrecognized position command: " ++ a0))
-    match kind with
+    match positionKind args a0 with
     | .error e => e
     | .ok kind =>
-      let moves : Except Parsed (Option (List String)) := match kind with
-        | .startpos =>
-          if args.length > 2 ∧ args[1]? = some "moves" then
-            match sliceFrom? args 2 with | some m => .ok (some m) | none => .error (.panic "args[2..]")
-          else .ok none
-        | .fen _ =>
-          if args.length > 8 ∧ args[7]? = some "moves" then
-            match sliceFrom? args 8 with | some m => .ok (some m) | none => .error (.panic "args[8..]")
-          else .ok none
-      match moves with
+      match positionMoves args kind with
       | .error e => e
       | .ok moves => .ok (.position kind moves)
 
